@@ -57,7 +57,7 @@ __CPROVER_ensures(BT_OK(g_n, XR_TTL, XR_LEN0) ==> (OLD(XR_M)->m_header_len == 4 
 __CPROVER_ensures((BT_OK(g_n, XR_TTL, XR_LEN0) && g_k < 4 * (g_n + 1)) ==> HDR(OLD(XR_M))[4 + g_k] == g_b)
 /* the last header word is the end word, no earlier backtrace word is */
 __CPROVER_ensures(BT_OK(g_n, XR_TTL, XR_LEN0) ==> (HDR(OLD(XR_M))[4 * (g_n + 1)] & 0x80u) != 0)
-__CPROVER_ensures((BT_OK(g_n, XR_TTL, XR_LEN0) && g_j >= 1 && g_j <= g_n) ==> (HDR(OLD(XR_M))[4 * g_j] & 0x80u) == 0)
+__CPROVER_ensures((BT_OK(g_n, XR_TTL, XR_LEN0) && g_k % 4 == 0 && g_k / 4 < g_n) ==> (HDR(OLD(XR_M))[4 + g_k] & 0x80u) == 0)
 /* body = remaining bytes, unchanged */
 __CPROVER_ensures(BT_OK(g_n, XR_TTL, XR_LEN0) ==> OLD(XR_M)->m_body.ch_len == XR_LEN0 - 4 * (g_n + 1))
 __CPROVER_ensures((BT_OK(g_n, XR_TTL, XR_LEN0) && g_k >= 4 * (g_n + 1) && g_k < XR_LEN0) ==> OLD(XR_M)->m_body.ch_ptr[g_k - 4 * (g_n + 1)] == g_b)
